@@ -16,6 +16,16 @@ fn gen_lists(r: &mut Rng) -> (Vec<String>, Vec<String>) {
     if r.pct(50) {
         net.extend(gen::cluster(r, &gen::ALL_ON));
     }
+    if r.pct(40) {
+        // rules identical except for their tag
+        let body = r.pick(&["||tracker.example.net/pixel.gif", "/adframe/x", "@@||tracker.example.net/pixel.gif", "/adframe/x$important"]).to_string();
+        let sep = if body.contains('$') { "," } else { "$" };
+        net.push(format!("{}{}tag=t1", body, sep));
+        net.push(format!("{}{}tag=t2", body, sep));
+        if body.starts_with("@@") {
+            net.push("||tracker.example.net^".into());
+        }
+    }
     net.retain(|l| parse_net(l, true).map(|f| !f.mask.contains(adblock::filters::network::NetworkFilterMask::IS_COMPLETE_REGEX)).unwrap_or(false));
     let scripts = cosm::script_pool();
     let cos: Vec<String> = (0..r.below(8)).map(|_| cosm::gen_rule(r, &scripts)).collect();
@@ -93,7 +103,10 @@ pub fn run_c08(seed: u64, n: usize, out: &mut Out) {
                 out.case(&format!("htags\tuse\t{}", hex_list(&tags)), &format!("+{}", cur.join(",")), json!({"use_tags": tags}), false);
             }
             for _ in 0..3 {
-                let (u, s, t) = gen::cluster_url(&mut r, &net);
+                let (mut u, s, t) = gen::cluster_url(&mut r, &net);
+                if r.pct(30) {
+                    u = r.pick(&["https://tracker.example.net/pixel.gif", "https://cdn.test/adframe/x"]).to_string();
+                }
                 if !u.is_ascii() {
                     continue;
                 }
@@ -156,8 +169,14 @@ pub fn run_c09(seed: u64, n: usize, out: &mut Out) {
         // bucket-sharing clusters, rules stored in several buckets (token-less with several domains)
         net.extend(gen::cluster_same_mask(&mut r, &gen::ALL_ON));
         if r.pct(50) {
-            net.push("*$script,third-party,domain=news.example|blog.example".into());
-            net.push("*$image,third-party,domain=news.example".into());
+            // rules stored in several buckets next to single-bucket rules, with varying id order
+            for k in 0..1 + r.below(3) {
+                let t1 = r.pick(&["script", "image", "font", "xhr", "media"]);
+                let t2 = r.pick(&["script", "image", "font", "xhr", "media"]);
+                net.push(format!("*${},third-party,domain=news.example|blog{}.example", t1, k));
+                net.push(format!("*${},third-party,domain=news.example", t2));
+                net.push(format!("*${},domain=blog{}.example", t2, k));
+            }
             net.push("/adframe/$script".into());
             net.push("/adframe/$image".into());
             net.push("/adframe/$font".into());
